@@ -10,8 +10,12 @@ ArgsTiny == {None, -1, 1, 2}
 ReadsTwo == {"to_pandas", "count"}
 ColsNone == {<<>>}
 DerivAll == {"slice", "pick", "pickle", "copy", "deepcopy"}
+DerivWarm == {"slice", "pick", "warm"}
+SrcPath == {"path"}
+SrcAll == {"path", "fileobj", "bytesio"}
+ReadsFour == {"to_pandas", "iter", "head", "count"}
 ReadsAll == {"to_pandas", "iter", "head", "count", "filelike"}
 ColsAll == {<<>>, <<"x">>, <<"s", "x">>, <<"k">>, <<"x", "k", "s">>}
 ColsFew == {<<>>, <<"s", "x">>}
-Export == pc = "done" => PrintT(ToJson([prog |-> prog, outcome |-> outcome]))
+Export == pc = "done" => PrintT(ToJson([prog |-> prog, outcome |-> outcome, src |-> src]))
 =============================================================================
